@@ -78,7 +78,7 @@ def main():
             meta = {
                 "id": name,
                 "property": pid,
-                "round": 1 if int(k) <= 3 else (2 if int(k) <= 6 else (3 if int(k) <= 9 else (4 if int(k) <= 12 else (5 if int(k) <= 15 else (6 if int(k) <= 18 else 7))))),
+                "round": 1 if int(k) <= 3 else (2 if int(k) <= 6 else (3 if int(k) <= 9 else (4 if int(k) <= 12 else (5 if int(k) <= 15 else (6 if int(k) <= 18 else 7))))),  # (rounds 7 and 8 share the numbers 19-21: see meta["round"] fixed after storing)
                 "origin": "written by a fresh sub-agent that was given only the text of property %s and a scratch git worktree of "
                           "/repo; it saw nothing of /verif" % pid,
                 "what_it_changes": notes.get("summary"),
